@@ -4,7 +4,7 @@ from pathlib import Path
 LIBS = ["libavoid"]
 HARNESS = "harness/c11.cpp"
 DRIVER_MODE = "c11"
-LEAN_MODULES = ["AdaptaVerif.Props.C11", "AdaptaVerif.Props.C11Tie", "AdaptaVerif.Props.C11Legs"]
+LEAN_MODULES = ["AdaptaVerif.Props.C11", "AdaptaVerif.Props.C11Tie", "AdaptaVerif.Props.C11Tie2", "AdaptaVerif.Props.C11Legs"]
 # COLA_ASSERT throws vpsc::CriticalFailure instead of calling abort(): a failed library assertion is
 # reported per case by the harness ("assert" line) and decided by the driver
 EXTRA_FLAGS = ["-DUSE_ASSERT_EXCEPTIONS"]
@@ -71,7 +71,7 @@ def regenerate(ROOT, REPO):
     import sys
     sys.path.insert(0, str(Path(ROOT) / "tools" / "cpp2lean"))
     import jobs
-    return jobs.regenerate(["pindirs", "comparators"], Path(ROOT), Path(REPO))
+    return jobs.regenerate(["pindirs", "comparators", "pinpos"], Path(ROOT), Path(REPO))    # pinpos: ShapeConnectionPin::position (Props/C11Tie2.lean)
 
 
 def plan(tier, seed, searching):
